@@ -14,6 +14,7 @@ import (
 	"fmt"
 	"io"
 	"os"
+	"runtime"
 	"strconv"
 	"strings"
 	"sync"
@@ -30,6 +31,8 @@ func TestMain(m *testing.M) {
 	ev.Init("C20")
 	log.Root().SetHandler(log.DiscardHandler())
 	rc := m.Run()
+	// every case stops what it started; a count that grows with the number of cases would show a leak
+	ev.Note("goroutines_alive_at_exit_sum_over_processes", runtime.NumGoroutine())
 	ev.Flush()
 	os.Exit(rc)
 }
